@@ -292,6 +292,16 @@ def _dfs(eng, spec, scenario, final, work, deadline, first_only, acc, stop_at=No
             sched = schedule_of(eng, s)
             acc['sample'] = {'scenario': scenario, 'switches': s.cb_switches, 'one_explored_schedule_thread_ids': sched[:80],
                              'schedule': sched, 'log': event_log(eng, s), 'frozen': s.cb_frozen, 'subject': s.thread if s.cb_frozen is not None else None}
+        if spec.get('hb') and s.status == 'done':
+            for e1, e2 in hb_races(eng, s):
+                acc['nob'] += 1
+                d = {'kind': 'race', 'ident': 'race:%#x' % (e1.addr or 0),
+                     'msg': 'data race: %s by thread %d at %s and %s by thread %d at %s are not ordered by happens-before' % (
+                         'write' if e1.kind != 'R' else 'read', e1.thread, eng.loc(e1.ins).split(' <- ')[0],
+                         'write' if e2.kind != 'R' else 'read', e2.thread, eng.loc(e2.ins).split(' <- ')[0]),
+                     'thread': e2.thread, 'where': eng.loc(e2.ins), 'schedule': schedule_of(eng, s), 'nondet': {},
+                     'trace': [], 'frozen': None}
+                acc['violations'].append(d)
         for ob in s.oblig:
             acc['nob'] += 1
             spin = ob.kind == 'blocking' or str(ob.ident).startswith('spin:')
@@ -421,3 +431,100 @@ def validate_sample(spec, scenario, sample, flavor, features):
             return 0, 'cb translator validation: %s: step %d differs: engine t%d %s, native t%d %s' % (
                 scenario, i, te[i], ce[i], tn[i], cn[i])
     return 1, None
+
+
+# ---------------------------------------------------------------------------------------------------------------
+# C07 on explored schedules: C11 happens-before by vector clocks over the concrete event sequence of a path
+
+REL = ('release', 'acq_rel', 'seq_cst')
+ACQ = ('acquire', 'acq_rel', 'seq_cst')
+
+
+def _join(a, b):
+    if not b:
+        return a
+    for k, v in b.items():
+        if a.get(k, 0) < v:
+            a[k] = v
+    return a
+
+
+def hb_races(eng, s, limit=1):
+    """The events of a finished path are one sequentially consistent execution. Recompute C11 happens-before on it
+    (release/acquire and SeqCst accesses synchronise when the read takes its value from the write or from a release
+    sequence continued by read-modify-writes; release and acquire fences; program order) and report conflicting
+    accesses to a shared location, at least one of them non-atomic, that are not ordered by it. Everything before the
+    thread bodies (setup, prologues) happens-before every body. Returns [(e1, e2)]."""
+    n = getattr(s, 'n_thread_events', len(s.events))
+    C = {}          # thread -> vector clock
+    pending = {}    # thread -> join of the message clocks seen by its relaxed reads (folded in by an acquire fence)
+    relf = {}       # thread -> its clock at its last release fence
+    msg = {}        # atomic cell -> message clock of the release sequence its current value belongs to
+    lastw = {}      # cell -> (thread, epoch, event) of the last write
+    reads = {}      # cell -> {thread: (epoch, event)} reads since the last write
+    out = []
+
+    def clock(t):
+        c = C.get(t)
+        if c is None:
+            c = C[t] = {t: 1}
+        return c
+
+    def ordered(prev, t):
+        pt, pe, _ = prev
+        return pt == t or clock(t).get(pt, 0) >= pe
+
+    for e in s.events[:n]:
+        t = e.thread
+        if t == 0:
+            continue
+        c = clock(t)
+        c[t] = c.get(t, 0) + 1
+        k = e.kind
+        if k == 'F':
+            if e.ordering in ACQ:
+                _join(c, pending.get(t))
+            if e.ordering in REL:
+                relf[t] = dict(c)
+            continue
+        if k not in ('R', 'W', 'U', 'C') or e.addr is None or not isinstance(e.addr, int):
+            continue
+        a = e.addr
+        is_read = k in ('R', 'U', 'C')
+        is_write = k in ('W', 'U') or (k == 'C' and e.succ == 1)
+        if e.atomic:
+            if k == 'C':
+                o_read = e.ordering if e.succ == 1 else (e.info[0] if isinstance(e.info, tuple) else 'monotonic')
+            else:
+                o_read = e.ordering
+            m = msg.get(a)
+            if is_read and m:
+                if o_read in ACQ:
+                    _join(c, m)
+                else:
+                    pending[t] = _join(pending.get(t, {}), m)
+            if is_write:
+                if e.ordering in REL:
+                    nm = dict(c)
+                else:
+                    nm = dict(relf.get(t, {}))
+                if k in ('U', 'C') and m:
+                    _join(nm, m)        # a read-modify-write continues the release sequence it read from
+                msg[a] = nm
+        # conflicts (per byte range would be more precise; cells here are accessed with one size throughout)
+        lw = lastw.get(a)
+        if is_read and not is_write:
+            if lw is not None and not (e.atomic and lw[2].atomic) and not ordered(lw, t):
+                out.append((lw[2], e))
+            reads.setdefault(a, {})[t] = (c[t], e)
+        if is_write:
+            if lw is not None and not (e.atomic and lw[2].atomic) and not ordered(lw, t):
+                out.append((lw[2], e))
+            for rt, (re_, rev) in reads.get(a, {}).items():
+                if rt != t and not (e.atomic and rev.atomic) and c.get(rt, 0) < re_:
+                    out.append((rev, e))
+            lastw[a] = (t, c[t], e)
+            reads[a] = {}
+        if len(out) >= limit:
+            break
+    return out
